@@ -189,6 +189,14 @@ func init() {
 				f := genFeed(r, feedOpts{})
 				return staticCase(f.members(r, true, nil), [][]member{f.members(r, true, nil), f.members(r, false, nil)}, false,
 					map[string]any{"deflate": r.Bool(), "truth": f.truth()})
+			},
+			fixed: func() []map[string]any {
+				// probe of the known finding D20: a transfer whose two stops coincide yields no entity
+				r := NewRng(20)
+				f := genFeed(r, feedOpts{})
+				tr := f.tables["transfers.txt"]
+				tr.rows = append([][]string{{"S0", "S0", "2", "120"}}, tr.rows...)
+				return []map[string]any{staticCase(f.members(r, false, nil), nil, false, map[string]any{"truth": f.truth()})}
 			}}
 	}
 	props["ST"] = func() Prop {
